@@ -590,7 +590,7 @@ def run(chk):
         "request, error mapping 400/408/close, framing headers + version echo + CORS on every well-formed-request path, keep-alive iff the "
         "case-insensitive Connection test, self-delimiting when kept open, nothing after the body, no read-ahead discarded, "
         "segmentation-proof reads; plus equality of the two runtimes' fact sets. All paths of both loops, no execution.")
-    chk.not_decided = ("response content; timing of the 408; isolation of a panicking handler (C08 / tokio task isolation); "
+    chk.not_decided = ("response content; timing of the 408; isolation of a panicking handler in the tokio runtime (task isolation is tokio's); "
                        "behaviour of a user-supplied Content-Length")
     chk.assumptions = ["rustc type checking / MIR construction / callee resolution", "the .await desugaring is the standard poll loop",
                        "user handlers and the error handler are opaque function values"]
@@ -606,6 +606,9 @@ def run(chk):
         c02.reads(chk, prog, cfg)
         if cfg == "A":
             timeout_table(chk, prog)
+            # "a panicking handler costs only its own connection" (threaded runtime): the pool's isolation rules of C08
+            from . import c08
+            c08.isolation_rules(chk, prog)
     # R-SIBLING
     a, b = facts.get("A", {}), facts.get("B", {})
     norm = lambda k: (k[0], k[1].replace("humphrey::tokio::", "humphrey::"))
